@@ -24,7 +24,7 @@ use super::c16::Endpoint;
 pub struct C15Family;
 pub static C15: C15Family = C15Family;
 
-pub const DECODERS: [&str; 19] = [
+pub const DECODERS: [&str; 23] = [
     "json:CredentialCreationOptions",
     "json:CredentialRequestOptions",
     "json:CreatedPublicKeyCredential",
@@ -43,6 +43,10 @@ pub const DECODERS: [&str; 19] = [
     "str:valid_fingerprint",
     "str:domain",
     "str:origin+rp_id",
+    "bin:u2f::RegisterRequest",
+    "bin:u2f::AuthenticationRequest",
+    "bin:HmacSecretSaltOrOutput",
+    "bin:status+flags",
     "hid",
 ];
 
@@ -92,6 +96,22 @@ pub fn decode(decoder: &str, input: &[u8]) {
                     let o = Origin::Android(link);
                     drop(v.assert_domain(&o, rp));
                 }
+            }
+        }
+        "bin:u2f::RegisterRequest" => drop(passkey_types::u2f::RegisterRequest::try_from(input)),
+        "bin:u2f::AuthenticationRequest" => {
+            // first byte: the P1 control byte of the frame, rest: the payload
+            if let Some((p1, payload)) = input.split_first() {
+                drop(passkey_types::u2f::AuthenticationRequest::try_from(payload, *p1));
+            }
+        }
+        "bin:HmacSecretSaltOrOutput" => drop(ctap2::extensions::HmacSecretSaltOrOutput::try_from(input)),
+        "bin:status+flags" => {
+            for b in input.iter().take(64) {
+                let _: u8 = ctap2::StatusCode::from(*b).into();
+                let _ = ctap2::Flags::try_from(*b);
+                let _ = ctap2::Ctap2Error::try_from(*b);
+                let _ = ctap2::U2FError::try_from(*b);
             }
         }
         _ => {}
@@ -328,6 +348,19 @@ fn build_corpus() -> Corpus {
         strs(&[crate::world::ANDROID_FP, "B3:5B"]),
         strs(&["example.co.uk", "www.xn--bcher-kva.example", "a.b.c.d.e.f.g.h.example.com", "localhost", "xn--p1ai", "city.kawasaki.jp", "www.ck", "foo.bar.compute.amazonaws.com"]),
         strs(&["https://login.example.com\nexample.com", "http://localhost:4000\nlocalhost", "https://xn--bcher-kva.example/path?q#f\nxn--bcher-kva.example", "https://[::1]:8443\n", "https://user:pw@sub.example.co.uk:1/\nexample.co.uk", "www.example.net\nexample.net"]),
+        vec![vec![0x11; 64]],
+        {
+            let mut d = vec![0x03u8];
+            d.extend_from_slice(&[0x22; 64]);
+            d.push(16);
+            d.extend_from_slice(&[0x33; 16]);
+            let mut e = vec![0x07u8];
+            e.extend_from_slice(&[0x22; 64]);
+            e.push(0);
+            vec![d, e]
+        },
+        vec![vec![0x44; 32], vec![0x55; 64]],
+        vec![(0..=255u8).collect::<Vec<u8>>()[..64].to_vec(), (192..=255u8).collect()],
     ];
     let mut hid_streams = vec![
         hid_stream(0x0102_0304, Command::Cbor, 0, 1),
@@ -572,6 +605,14 @@ fn sweep_for(decoder: &str, base: &[u8]) -> Vec<Vec<LinkFault>> {
             for p2 in [0u8, 0xff] {
                 out.push(vec![LinkFault::ByteSet(3, p2), LinkFault::ByteSet(4, a), LinkFault::ByteSet(5, b), LinkFault::ByteSet(6, c)]);
             }
+        }
+    }
+    if decoder == "bin:u2f::AuthenticationRequest" {
+        for p1 in 0..=255u8 {
+            out.push(vec![LinkFault::ByteSet(0, p1)]);
+        }
+        for l in [0u8, 1, 15, 17, 255] {
+            out.push(vec![LinkFault::ByteSet(65, l)]);
         }
     }
     if decoder.starts_with("str:") {
